@@ -38,7 +38,8 @@ class C06(props.BaseProp):
             "insertion order; isolated nodes; nodes created only by edges), 0..2n+1 edges, directed/undirected x "
             "single/multi-edge, self-loops, parallel edges, two-block disconnected graphs; 35% of the directed graphs "
             "are forward-only (DAG-like) so that reachability is asymmetric; weighted (weights {1,2,3}) or hop-count x "
-            "wf_improved on/off; 3% hop-count graphs of 21-23 nodes (rayon path); 10% of the weighted cases use weights w/4 "
+            "wf_improved on/off; 3% graphs of 21-23 nodes (rayon path; hop-count compared with the model, weighted decided by "
+            "the definitional oracle alone); 10% of the weighted cases use weights w/4 "
             "(below 1, exact in binary64; decided by the definitional oracle alone, the model being over integer weights). "
             "Compared with the Coq model: build "
             "outcome, call outcome, sorted name->value map (1e-9), flags 61 (heap tie choice unobservable), 62 (the "
@@ -55,9 +56,13 @@ class C06(props.BaseProp):
             multi = r.below(3) == 0
             weighted = r.below(2) == 1
             big = r.below(100) < 3
+            bigw = False
             if big:
                 nn = 21 + r.below(3)
-                weighted = False
+                # the parallel arm (more than 20 nodes) in both modes; the weighted big cases are decided by
+                # the definitional oracle alone (the in-Coq evaluation of the heap search on 22 nodes is slow)
+                bigw = r.below(2) == 0
+                weighted = bigw
             else:
                 nn = r.pick([0, 1, 2, 2, 3, 3, 4, 4, 5, 5, 5, 6, 6, 6, 7, 7, 8, 8])
             wmode = "real" if weighted else r.pick(["nan", "mixed", "real"])
@@ -76,6 +81,8 @@ class C06(props.BaseProp):
                     edges = es
             c = {"id": "c%d" % i, "spec": spec, "nodes": nodes, "edges": edges,
                  "weighted": weighted, "wf": r.below(2) == 1}
+            if bigw:
+                c["nomodel"] = True
             if weighted and not big and r.below(100) < 10:
                 # weights below 1 (w/4, exact in binary64): closeness may exceed 1; the Coq model is stated for
                 # integer weights, so these cases are decided by the definitional oracle alone
@@ -93,11 +100,14 @@ class C06(props.BaseProp):
 
     def case_json(self, c):
         return {"id": c["id"], "spec": list(c["spec"]), "nodes": c["nodes"], "edges": [list(e) for e in c["edges"]],
-                "weighted": bool(c["weighted"]), "wf": bool(c["wf"]), "wdiv": c.get("wdiv", 1)}
+                "weighted": bool(c["weighted"]), "wf": bool(c["wf"]), "wdiv": c.get("wdiv", 1),
+                "nomodel": bool(c.get("nomodel"))}
 
     def case_from_json(self, j):
         c = cg.graph_from_json(j)
         c.update(id=j.get("id", "replay"), weighted=j["weighted"], wf=j["wf"])
+        if j.get("nomodel"):
+            c["nomodel"] = True
         return c
 
     def oracle(self, c, o):
